@@ -66,7 +66,7 @@ def judge_truth(key, prog, kind, o, calls):
     ver, method, conn = key
     if o.exc:
         return None
-    resps, _ = rfc_response.read_all(o.wire, [method, b"GET"], o.server_closed)
+    resps, _ = rfc_response.read_all(o.wire, [method, b"GET"], o.server_closed, expect_continue=(0,) if conn == b"expect" else ())
     recs = o.access
     if len(recs) != len(calls):
         return "record-count", "%d access records for %d completed application calls: %r" % (len(recs), len(calls), recs)
